@@ -675,6 +675,11 @@ func genBatch(prop string, g *Gen, m *Model, rng *SplitMix) []Cmd {
 			c := Cmd{Op: "claim", Agent: agent()}
 			if rng.Chance(2, 5) {
 				e := g.ref(m, isEpic, false)
+				// prefer an epic that itself depends on another epic: its tasks
+				// are ready only through the epic level
+				if de, ok := g.liveOf(m, func(it *MItem) bool { return it.IsEpic && len(it.Deps) > 0 }); ok && rng.Chance(2, 3) {
+					e = de
+				}
 				c.Epic = &e
 			}
 			cmds = append(cmds, c)
